@@ -6,6 +6,7 @@
   parallel environments.
 -/
 import LeraxModel.OnPolicy
+import LeraxModel.Utils
 
 namespace Lerax.C04
 open Lerax.Env Lerax.OnPolicy
@@ -163,5 +164,38 @@ example : Coherent toyPolicy := by intro ps o k m; rfl
 
 example : (collectStep toyEnv (fun _ _ => none) id toyPolicy 2 ⟨1, ()⟩ 0).2.reward = 1 + 2 * 20 ∧
     (collectStep toyEnv (fun _ _ => none) id toyPolicy 2 ⟨1, ()⟩ 0).1.env = 0 := by decide
+
+end Lerax.C04
+
+/-! ### `filter_cond` (used for the two resets of `step`) selects whole branches -/
+
+namespace Lerax.C04
+open Lerax.Utils
+
+theorem combine_partition {α σ : Type} (t : List (Leaf α σ)) : combine (arrays t) (statics t) = t := by
+  induction t with
+  | nil => rfl
+  | cons l ls ih => cases l <;> simp [arrays, statics, combine] at ih ⊢ <;> exact ih
+
+theorem combine_of_same_statics {α σ : Type} (t f : List (Leaf α σ)) (h : statics t = statics f) :
+    combine (arrays f) (statics t) = f := by
+  rw [h]; exact combine_partition f
+
+/-- **`filter_cond` returns the true branch's tree when the predicate holds and the false
+    branch's otherwise** (given identical static leaves), and raises when the static leaves of
+    the two branches differ — so after a done step the carried state is exactly the reset state,
+    never a leaf-wise mixture of the two. -/
+theorem filterCond_selects {α σ : Type} [DecidableEq σ] (pred : Bool) (t f : List (Leaf α σ)) :
+    (statics t = statics f → filterCond pred t f = .ok (if pred then t else f)) ∧
+    (statics t ≠ statics f → ∃ e, filterCond pred t f = .error e) := by
+  constructor
+  · intro h
+    unfold filterCond
+    rw [if_neg (by simpa using h)]
+    cases pred
+    · simp [combine_of_same_statics t f h]
+    · simp [combine_partition]
+  · intro h
+    exact ⟨_, by unfold filterCond; rw [if_pos h]⟩
 
 end Lerax.C04
